@@ -340,6 +340,19 @@ func callsText(cs []Call) string {
 	return s
 }
 
+// hang records a non-terminating call (called by the watchdog).
+func (c *Collector) hang(r Replay) {
+	r.Property = c.Property
+	r.Seed = seed()
+	r.Shard = shard()
+	path := filepath.Join(outDir(), fmt.Sprintf("%s-%s-s%d-hang.json", c.Property, r.Check, shard()))
+	b, _ := json.MarshalIndent(r, "", " ")
+	_ = os.WriteFile(path, b, 0o644)
+	c.mu.Lock()
+	c.violations = append(c.violations, Violation{Check: r.Check, Message: r.Message, Replay: path})
+	c.mu.Unlock()
+}
+
 // ShardStats is what one shard process writes.
 type ShardStats struct {
 	Property    string           `json:"property"`
